@@ -15,9 +15,23 @@ KIND_OF_CLASS = {"FortranVariable": {"var"}, "FortranType": {"type"}, "FortranSu
 @contextlib.contextmanager
 def forced_order(root, rels):
     """find_all_files returns the given files as a list, so that they are parsed in this order"""
+    import pathlib
     import ford.fortran_project as fp
+
+    class OrderedPath(type(pathlib.Path())):
+        """a path that sorts by its position in the forced order (Project may sort the file set)"""
+        def __lt__(self, other):
+            return self._verif_idx < other._verif_idx
+
+    def forced(settings):
+        out = []
+        for i, r in enumerate(rels):
+            q = OrderedPath(root / r)
+            q._verif_idx = i
+            out.append(q)
+        return out
     orig = fp.find_all_files
-    fp.find_all_files = lambda settings: [root / r for r in rels]
+    fp.find_all_files = forced
     try:
         yield
     finally:
